@@ -48,6 +48,8 @@ class Gen:
             c["queue"] = r.choice([1, 2])
             c["pool"] = 1
             c["buffer"] = 1
+            # a clock at or just after the epoch is a valid clock too
+            c["t0"] = r.choice([0, 1, 999999999, SEC, 2 * SEC - 1, c["t0"], c["t0"]])
         return c
 
     def weight(self, max_w):
